@@ -94,6 +94,17 @@ class Gen:
 
     def dims(self, q_ok=False, min_tokens=0):
         r = self.rnd
+        if self.allow_sym and not self.sym_exprs and self.max_tokens >= 4 and len(self.names) >= 2 and r.random() < 0.05:
+            # chain: a symbolic axis, then a name bound for the first time INSIDE this annotation, then a symbolic axis using it
+            # (the namespace of the second expression must see the binding made between the two)
+            x, y = r.sample(list(self.names), 2)
+            toks = [{"kind": "named", "name": x, "b": False, "q": False, "order": 0, "doc": ""},
+                    {"kind": "sym", "expr": r.choice((f"{x}+1", f"2*{x}", f"{x}-1")), "b": False},
+                    {"kind": "named", "name": y, "b": False, "q": False, "order": 0, "doc": ""},
+                    {"kind": "sym", "expr": r.choice((f"{y}+1", f"{x}*{y}", f"{x}+{y}", f"min({x},{y})")), "b": False}]
+            if r.random() < 0.3:
+                toks = toks[1:]  # x bound by an earlier annotation (or unbound: AnnotationError)
+            return toks
         n = r.randrange(min_tokens, self.max_tokens + 1)
         toks = []
         have_var = False
